@@ -1,8 +1,9 @@
 ---------------------------- MODULE PopulatorMC ----------------------------
 (* Enumerated scenario families for Populator (cfg: Scenarios <- Sc_...,     *)
 (* a sequence of sets of scenarios).                                        *)
-(* A scenario: [files, dirs, cn, ct, calls, fresh (calls that start on a new map)] ; a call: [add, n, t] with the  *)
-(* rules added before it and the per-call options ("T" / "F" / "N" = None). *)
+(* A scenario: [trees, cn, ct, calls, fresh (calls that start on a new map)] ; a tree: [files, dirs, specials];     *)
+(* a call: [add, n, t, root] with the rules added before it, the per-call options ("T" / "F" / "N" = None) and the  *)
+(* tree it reads (index into trees).                                        *)
 EXTENDS Populator
 
 \* names: 0, 1 and 2 dots; s.d and t.txt are *directories* with a dot in their name
@@ -15,6 +16,8 @@ dx == <<D, X>>          dxt == <<D, XT>>        dxp == <<D, XP>>        dyg == <
 dsxt == <<D, S, XT>>    dszt == <<D, S, ZT>>    dsuxt == <<D, S, U, XT>>
 dsdx == <<D, SD, X>>    ext == <<E, XT>>        esyg == <<E, S, YG>>
 ff == <<<<"f">>>>                               \* a regular file where a rule expects a directory
+pp == <<<<"p">>>>                               \* a FIFO where a rule expects a directory
+dxzt == <<D, X, ZT>>    dxuxt == <<D, X, U, XT>>                \* below a DIRECTORY d/x (d/x is a file in other trees)
 FileU == {dx, dxt, dxp, dyg, dsxt, dszt, dsuxt, dsdx, ext, esyg, ff}
 DFiles == {dx, dxt, dxp, dyg, dsxt}            \* where keys clash under trim_extensions
 \* empty directories: d/t, d/t.txt, d/s/t, e, d
@@ -22,8 +25,11 @@ dt == <<D, T>>    dtt == <<D, TT>>    dst == <<D, S, T>>
 
 UpTo(Set, n) == {x \in SUBSET Set : Cardinality(x) <= n}
 \* a tree from its regular files and its empty directories
-Tree(F, Em) == [files |-> F, dirs |-> (UNION {Prefixes(Front(p)) : p \in F} \cup UNION {Prefixes(p) : p \in Em}) \ {<<>>}]
-RichTrees == {Tree({dx, dxt, dxp}, {}), Tree({dxt, dxp, dyg, dsxt}, {dt}), Tree({dxt, dszt, dsuxt, ext}, {dtt}),
+TreeP(F, Em, Sp) == [files |-> F, dirs |-> (UNION {Prefixes(Front(p)) : p \in F} \cup UNION {Prefixes(p) : p \in Em}) \ {<<>>},
+                     specials |-> Sp]
+Tree(F, Em) == TreeP(F, Em, {})
+RichTrees == {TreeP({dxt, ff}, {dt}, {pp}),
+              Tree({dx, dxt, dxp}, {}), Tree({dxt, dxp, dyg, dsxt}, {dt}), Tree({dxt, dszt, dsuxt, ext}, {dtt}),
               Tree({dx, dsdx, dyg, ff}, {dst}), Tree({dxt, dxp, dsxt, dszt, esyg}, {dt, dtt}),
               Tree({}, {RD}), Tree({}, {dt, RE}), Tree({dsuxt}, {dst, dtt}), Tree({dx, dxt, dxp, dsxt, dsdx}, {})}
 
@@ -36,10 +42,13 @@ Mk(ps, off) == [i \in 1..Len(ps) |-> [dir |-> ps[i][1], exts |-> ps[i][2],
                                        fac |-> Fac[((i + off) % 4) + 1], args |-> Arg[((i + off) % 5) + 1]]]
 FF == <<<<"f">>>>
 MM == <<<<"m">>>>                               \* never exists
+PP == <<<<"p">>>>                               \* a FIFO in some trees, missing in the others
 ExtSets == {{}, {"txt"}, {"txt", "png"}, {"gz"}}
-Protos1 == {P(d, x) : d \in {RD, DS, RE}, x \in ExtSets} \cup {P(FF, {}), P(MM, {})}
-PC(add, n, t) == [add |-> add, n |-> n, t |-> t]
-ScnF(tree, cn, ct, calls, fresh) == [files |-> tree.files, dirs |-> tree.dirs, cn |-> cn, ct |-> ct, calls |-> calls, fresh |-> fresh]
+Protos1 == {P(d, x) : d \in {RD, DS, RE}, x \in ExtSets} \cup {P(FF, {}), P(MM, {}), P(PP, {})}
+PCR(add, n, t, root) == [add |-> add, n |-> n, t |-> t, root |-> root]
+PC(add, n, t) == PCR(add, n, t, 1)
+ScnT(trees, cn, ct, calls, fresh) == [trees |-> trees, cn |-> cn, ct |-> ct, calls |-> calls, fresh |-> fresh]
+ScnF(tree, cn, ct, calls, fresh) == ScnT(<<tree>>, cn, ct, calls, fresh)
 Scn(tree, cn, ct, calls) == ScnF(tree, cn, ct, calls, {})
 BoolOpt == {"T", "F"}
 Opt == {"T", "F", "N"}
@@ -58,12 +67,14 @@ Fam2b(Trees, Lists, Adds) ==
        : tr \in Trees, l \in Lists, a \in Adds, n1 \in BoolOpt, t1 \in BoolOpt, n2 \in BoolOpt, t2 \in BoolOpt}
 
 \* 3. rejected and missing rule paths at every position of the rule list, partial population before the error
-Protos3 == {P(RD, {}), P(FF, {}), P(MM, {}), P(RE, {"txt"})}
+\* (the kinds of an existing non-directory: a regular file f, a special file p - a FIFO)
+Protos3 == {P(RD, {}), P(FF, {}), P(MM, {}), P(RE, {"txt"}), P(PP, {})}
 Lists3(n) == UNION {[1..m -> Protos3] : m \in 0..n}
-Trees3 == {Tree({ff}, {}), Tree({ff, dxt}, {}), Tree({ff, dxt, ext}, {dt}), Tree({dxt}, {})}
+Trees3 == {Tree({ff}, {}), Tree({ff, dxt}, {}), Tree({ff, dxt, ext}, {dt}), Tree({dxt}, {}),
+           TreeP({dxt}, {}, {pp}), TreeP({ff, dxt, ext}, {}, {pp})}
 Fam3a(n) == {Scn(tr, TRUE, FALSE, <<PC(Mk(l, 0), "N", "N")>>) : tr \in Trees3, l \in Lists3(n)}
 Fam3b(n) == {Scn(tr, TRUE, FALSE, <<PC(Mk(l, 0), "N", "N"), PC(Mk(a, 1), "N", "T")>>)
-               : tr \in Trees3, l \in Lists3(n), a \in {<<>>, <<P(FF, {})>>}}
+               : tr \in Trees3, l \in Lists3(n), a \in {<<>>, <<P(FF, {})>>, <<P(PP, {})>>}}
 
 \* 4. None falls back to the constructor: the whole constructor x per-call matrix
 Trees4 == {Tree({dxt, dxp}, {}), Tree({dx, dxt, dsxt}, {}), Tree({dyg, dxt}, {dt})}
@@ -87,12 +98,23 @@ Fam5b(Trees) == {S5b(tr, l, cn, ct, on, ot, same, fr) : tr \in Trees, l \in List
                    on \in BOOLEAN, ot \in BOOLEAN, same \in BOOLEAN, fr \in {{}, {3}, {2, 3}}}
 Trees5 == {Tree({dxt, dxp}, {}), Tree({dx, dxt, dsxt}, {})}
 
+\* 6. overlays: the populator reads a base tree (once or twice: the same keys are claimed again, nest_on_conflict
+\* stacks them in layers) and then, through `root`, an overlay in which a name that was a file (d/x; d/x.txt or
+\* d/x.png with trimming) is a directory with files below it. Every directory on the way to those files is a
+\* sub-map, whatever held its key
+Bases6 == {Tree({dx}, {}), Tree({dx, dxt}, {}), Tree({dxt, dxp, dyg}, {}), Tree({dx, dsxt}, {dt})}
+Overs6 == {Tree({dxzt}, {}), Tree({dxzt, dxuxt, dyg}, {}), Tree({dxuxt, dsxt}, {})}
+Fam6a == {ScnT(<<b, o>>, FALSE, FALSE, <<PC(Mk(l, 0), n1, t), PCR(Mk(a, 2), n2, t, 2)>>, {})
+            : b \in Bases6, o \in Overs6, l \in Lists4, a \in Adds2, n1 \in BoolOpt, n2 \in BoolOpt, t \in BoolOpt}
+Fam6b == {ScnT(<<b, o>>, TRUE, ct, <<PC(Mk(l, 0), n1, "N"), PC(<<>>, n2, "N"), PCR(<<>>, n3, "N", 2)>>, {})
+            : b \in Bases6, o \in Overs6, l \in Lists4, ct \in BOOLEAN, n1 \in BoolOpt, n2 \in BoolOpt, n3 \in BoolOpt}
+
 Empties == {{}, {dt}, {dtt}, {dst}}
 TreesQ == {Tree(F, {}) : F \in UpTo(FileU, 2)} \cup RichTrees
 TreesC == {Tree(F, {}) : F \in UpTo(DFiles, 3) \ {{}}}
 
 \* Scenarios is a *sequence* of families: TLC's union of two enumerated sets is quadratic in their size
-Sc_quick == <<Fam1(TreesQ, {"N"}), Fam1(TreesC \cup RichTrees, {"T"}), Fam2a(TreesC, Lists2), Fam2b(TreesC, Lists2, Adds2), Fam3a(2), Fam3b(2), Fam4a, Fam4b, Fam5a(Trees5), Fam5b(Trees5)>>
+Sc_quick == <<Fam1(TreesQ, {"N"}), Fam1(TreesC \cup RichTrees, {"T"}), Fam2a(TreesC, Lists2), Fam2b(TreesC, Lists2, Adds2), Fam3a(2), Fam3b(2), Fam4a, Fam4b, Fam5a(Trees5), Fam5b(Trees5), Fam6a, Fam6b>>
 TreesTiny == {Tree({dxt, dxp}, {}), Tree({dxt, dyg}, {})}
 Sc_tiny == <<Fam2a(TreesTiny, Lists2), Fam2b(TreesTiny, Lists2, Adds2), Fam3a(1), Fam3b(1)>>     \* switch runs
 =============================================================================
